@@ -336,7 +336,7 @@ def main():
     prop = a.prop
     seed = int(os.environ.get("VERIF_SEED", "0"))
     t_start = time.time()
-    if prop not in families.PROPS:
+    if prop != "ALL" and prop not in families.PROPS:
         log(f"unknown or not-applicable property {prop}")
         sys.exit(2)
     os.makedirs(SCRATCH_ROOT, exist_ok=True)
@@ -360,7 +360,8 @@ def run(prop, a, seed, scratch, t_start):
     target = os.path.join(scratch, "target")
     if a.replay:
         return replay_file(prop, a.replay, src, target, scratch)
-    plan = families.plan(prop, a.tier)          # list of Harness objects
+    # "ALL": every registered query once (timing table lib/costs.json; development aid, no verdict for any property)
+    plan = list(families.H) if prop == "ALL" else families.plan(prop, a.tier)          # list of Harness objects
     if a.only:
         plan = [h for h in plan if re.search(a.only, h.name)]
     # VERIF_SEED only permutes scheduling order (no random choices decide anything)
@@ -482,6 +483,10 @@ def run(prop, a, seed, scratch, t_start):
                    extra={"solver_s": round(solver_s, 2), "symex_s": round(symex_s, 2), "vccs": vccs,
                           "kani_wall_s": round(wall, 1), "nontrivial": nontrivial,
                           "functions": crate_functions(recs)})
+    if prop == "ALL":
+        costs = {h: {"s": round(recs[h]["duration_ms"] / 1000.0, 1), "status": recs[h]["status"],
+                     "solver_s": (recs[h]["stats"] or {}).get("runtime_solver_s"), "symex_s": (recs[h]["stats"] or {}).get("runtime_symex_s")} for h in names}
+        json.dump(costs, open(os.environ.get("VERIF_COSTS_OUT", os.path.join(VERIF, "lib", "costs_measured.json")), "w"), indent=0, sort_keys=True)
     ok_n = sum(1 for h in names if recs[h]["status"] == "Success")
     log(f"[{prop}] {ok_n}/{len(names)} queries SUCCESS, {len(viols)} violating checks, {len(known_hits)} known-finding hits, "
         f"{len(incon)} inconclusive; solver {solver_s:.1f}s symex {symex_s:.1f}s wall {time.time()-t_start:.0f}s -> exit {rc}")
